@@ -1,6 +1,8 @@
 package main
 
 import (
+	"bytes"
+	"mime/multipart"
 	"fmt"
 	"net/url"
 	"reflect"
@@ -160,6 +162,17 @@ func c15request(parts []string, fs []c15field) (*protocol.Request, param.Params)
 		req.Header.SetContentTypeBytes([]byte("application/json"))
 		req.SetBody([]byte(body))
 		req.Header.SetContentLength(len(body))
+	} else if parts[1] != "" && parts[6] == "2" {
+		// the form fields as multipart/form-data
+		var mb bytes.Buffer
+		mw := multipart.NewWriter(&mb)
+		for _, kv := range c15kvs(parts[1]) {
+			mw.WriteField(kv[0], kv[1]) //nolint:errcheck
+		}
+		mw.Close()
+		req.Header.SetContentTypeBytes([]byte(mw.FormDataContentType()))
+		req.SetBody(mb.Bytes())
+		req.Header.SetContentLength(mb.Len())
 	} else if parts[1] != "" {
 		var fsb []string
 		for _, kv := range c15kvs(parts[1]) {
@@ -314,7 +327,10 @@ func c15modelArgs(tyDesc string, parts []string) [][]byte {
 		return []byte(strings.NewReplacer(";", "\x1e", "|", "\x1f", ",", "\x1d").Replace(s))
 	}
 	args := [][]byte{conv(tyDesc)}
-	for _, p := range parts {
+	for i, p := range parts {
+		if i == 6 && p == "2" { // a multipart form is a form: the same source for the model
+			p = "0"
+		}
 		args = append(args, conv(p))
 	}
 	return args
@@ -616,6 +632,17 @@ func c15genReq(t *T, fs []c15field) (string, []string) {
 		}
 	} else {
 		parts[6] = "0"
+		// the same form fields in a multipart body (empty values are left to the urlencoded form: how the multipart
+		// getter treats them is not modelled)
+		emptyVal := false
+		for _, kv := range c15kvs(parts[1]) {
+			if len(kv) < 2 || kv[1] == "" {
+				emptyVal = true
+			}
+		}
+		if t.R.Intn(3) == 0 && !emptyVal {
+			parts[6] = "2"
+		}
 	}
 	return strings.Join(recs, ";"), parts
 }
